@@ -84,6 +84,11 @@ func NewNegotiator(cfg func(*Session, *StreamConfig) StreamConfig) Negotiator {
 type negotiatorState struct {
 	doRestart bool
 	cancelTee context.CancelFunc
+
+	// Whether a features list has been negotiated yet. The first call of the
+	// negotiator is not necessarily the one that handles the first list: if a
+	// tee is configured the first call only installs it.
+	started bool
 }
 
 func negotiator(f func(*Session, *StreamConfig) StreamConfig) Negotiator {
@@ -204,7 +209,8 @@ func negotiator(f func(*Session, *StreamConfig) StreamConfig) Negotiator {
 		}
 
 		cfg = f(s, &cfg)
-		mask, rw, err = negotiateFeatures(ctx, s, data == nil, websocket, cfg.Features)
+		mask, rw, err = negotiateFeatures(ctx, s, !nState.started, websocket, cfg.Features)
+		nState.started = true
 		nState.doRestart = rw != nil
 		return mask, rw, nState, err
 	}
